@@ -226,6 +226,8 @@ type Dialer struct {
 	onDial  func(n int, cli *mqtt.BaseClient, conn *memnet.Conn)
 	// onActive is called inside the ConnState(Active) callback of connection k (1-based ordinal of accepted dials).
 	onActive func(k int)
+	// OnActive is called inside the ConnState(Active) callback (for hand-written scenarios).
+	OnActive func(k int)
 	// Before is called at the start of every DialContext (after dial.start was recorded).
 	Before func(n int)
 }
@@ -294,6 +296,9 @@ func (d *Dialer) DialContext(ctx context.Context) (*mqtt.BaseClient, error) {
 	cli.ConnState = StateCB(tr, conn.ID, func(s mqtt.ConnState, err error) {
 		if s == mqtt.StateActive && d.onActive != nil {
 			d.onActive(ordinal)
+		}
+		if s == mqtt.StateActive && d.OnActive != nil {
+			d.OnActive(ordinal)
 		}
 		if s == mqtt.StateActive && r.Sc.SlowActive {
 			for i := 0; i < 50; i++ {
